@@ -53,7 +53,7 @@ def run(rep, tier, seed):
             # a part whose only condition compares the value with a literal mapping / list (keys that look like
             # path specs in any position), on probe documents that contain that literal
             lit = rng.choice([{"path": ["a"]}, {"b": 1, "path": ["a", 0]}, {"mode": "x", "path.length": ["a"], "z": None},
-                              {"a": {"b": 1, "path": [1]}}, [{"b": 2, "path": ["a"]}, 3], {"a": 1, "b": [1, 2]}])
+                              {"a": {"b": 1, "path": [1]}}, [{"b": 2, "path": ["a"]}, 3], {"a": 1, "b": [1, 2]}] + gen.PATHLIKE_EXTRA)
             fn = rng.choice(["equal_to", "equal_to", "not_equal_to", "in_"])
             arg = [lit, 5] if fn == "in_" else lit
             part = {"rk": rng.choice(["map", "list", "mol"]), "key": None, "index": None, "cond": None, "label": None,
